@@ -12,7 +12,7 @@ from harness.props import c01
 from harness.props.c02 import coq_impl
 
 IMPORTS = "From Ford Require Import Base.Str Lex.Quote Lex.Reader Corr.C02 Corr.C03."
-THEOREMS = []
+THEOREMS = ["C03_reader_docs", "C03_attach", "C03_file_docs"]
 try:
     from harness.props import c03doc
 except Exception:  # noqa  (the documentation-text half is developed separately)
